@@ -28,8 +28,10 @@ import (
 	"strconv"
 	"strings"
 	"sync"
+	"sync/atomic"
 	"syscall"
 	"time"
+	"unsafe"
 
 	"verifh/ev"
 )
@@ -39,6 +41,7 @@ var (
 	flagWorkers = flag.Int("c10workers", 0, "internal: number of workers")
 	flagOut     = flag.String("c10out", "", "internal: worker result file")
 	flagWBudget = flag.Duration("c10budget", 0, "internal: worker soft budget")
+	flagCounter = flag.String("c10counter", "", "internal: shared group counter file")
 	flagOnly    = flag.String("c10only", "", "debug: run only groups whose name has this prefix")
 )
 
@@ -84,11 +87,24 @@ func workerMain(tier string) {
 	res := workerResult{Skipped: map[string]int{}, GroupSecs: map[string]float64{}}
 	idx := 0
 	over := false
-	// VERIF_SEED only changes which worker runs which group (never what is run).
-	seedShift := 0
+	// Groups are claimed dynamically, in blocks, from a counter shared by all
+	// workers (8 bytes of a file mapped MAP_SHARED): every worker walks the same
+	// enumeration and runs the groups of the blocks it claimed. What is run never
+	// depends on the assignment; VERIF_SEED only changes the block size.
+	block := 4
 	if v, err := strconv.Atoi(os.Getenv("VERIF_SEED")); err == nil && v > 0 {
-		seedShift = v % *flagWorkers
+		block = 2 + v%7
 	}
+	cf, err := os.OpenFile(*flagCounter, os.O_RDWR, 0)
+	if err != nil {
+		fatalf("counter file: %v", err)
+	}
+	mem, err := syscall.Mmap(int(cf.Fd()), 0, 8, syscall.PROT_READ|syscall.PROT_WRITE, syscall.MAP_SHARED)
+	if err != nil {
+		fatalf("mmap counter: %v", err)
+	}
+	ctr := (*int64)(unsafe.Pointer(&mem[0]))
+	blockStart, blockEnd := 0, 0
 	cpuNow := func() float64 {
 		var ru syscall.Rusage
 		if syscall.Getrusage(syscall.RUSAGE_SELF, &ru) != nil {
@@ -102,7 +118,11 @@ func workerMain(tier string) {
 		if *flagOnly != "" && !strings.HasPrefix(name, *flagOnly) {
 			return
 		}
-		if (i+seedShift)%*flagWorkers != *flagWorker {
+		for i >= blockEnd {
+			s := int(atomic.AddInt64(ctr, int64(block))) - block
+			blockStart, blockEnd = s, s+block
+		}
+		if i < blockStart {
 			return
 		}
 		res.GroupsMine++
@@ -214,6 +234,10 @@ func main() {
 		os.Exit(2)
 	}()
 
+	counter := filepath.Join(root, "counter")
+	if err := os.WriteFile(counter, make([]byte, 8), 0666); err != nil {
+		fatalf("counter file: %v", err)
+	}
 	results := make([]workerResult, nw)
 	errs := make([]error, nw)
 	var wg sync.WaitGroup
@@ -228,7 +252,7 @@ func main() {
 			}
 			out := filepath.Join(root, fmt.Sprintf("res%d.json", i))
 			args := []string{"-tier", r.Tier, "-c10worker", fmt.Sprint(i), "-c10workers", fmt.Sprint(nw),
-				"-c10out", out, "-c10budget", budget.String()}
+				"-c10out", out, "-c10budget", budget.String(), "-c10counter", counter}
 			if *flagOnly != "" {
 				args = append(args, "-c10only", *flagOnly)
 			}
